@@ -151,8 +151,9 @@ class _Hist:
     def __init__(self):
         self.denom, self.unb, self.apr = "TOKEN", 60, ONE // 10
         self.vals = {}
-        self.now = 0
-        self.pending = []   # [delegator, validator, amount, due]
+        self.now = 0        # whole seconds of block time since the start (what rewards count)
+        self.now_ns = 0     # nanoseconds since the start (what the unbonding queue compares)
+        self.pending = []   # [delegator, validator, amount, due (ns)]
         self.wd = {}
         self.nops = 0
         self.nslash = 0
@@ -166,7 +167,7 @@ class _Hist:
         elif t[0] == "validator":
             self.vals[t[1]] = int(t[2])
         elif t[0] == "undeleg":
-            self.pending.append([t[1], t[2], int(t[3]), self.now + self.unb])
+            self.pending.append([t[1], t[2], int(t[3]), self.now_ns + self.unb * 1000000000])
         elif t[0] == "slash":
             self.nslash += 1
             rem = ONE - int(t[2])
@@ -180,26 +181,29 @@ class _Hist:
                 self.wd[t[1]] = t[2]
         elif t[0] == "advance":
             self.now += int(t[1])
+            self.now_ns = int(t[2]) if len(t) > 2 else self.now_ns + int(t[1]) * 1000000000
 
     def denom_of(self, t, idx):
         return t[idx] if len(t) > idx else self.denom
 
 
 def _norm(ops):
-    """`advance SECS MODE NANOS` -> `advance <whole seconds of block time crossed>`: rewards count whole seconds
-    (reading R8: floor differences of the block time, which starts at .879305533), so every predicate reasons in them"""
-    out, frac, app_frac, cur = [], 879305533, {}, "1"
+    """`advance SECS [MODE [NANOS]]` -> `advance <whole seconds of block time crossed> <nanoseconds since the start>`:
+    rewards count whole seconds of block time (`floor(now) - floor(since)` in calculate_rewards; the default block
+    starts at 1571797419.879305533), the unbonding queue compares nanoseconds; the predicates follow both clocks"""
+    out, frac, ns_abs, st, cur = [], 879305533, 0, {}, "1"
     for o in ops:
         t = o.split()
         if t and t[0] == "app" and len(t) > 1:
-            app_frac[cur] = frac
+            st[cur] = (frac, ns_abs)
             cur = t[1]
-            frac = app_frac.get(cur, 879305533)
-        if t and t[0] == "advance" and len(t) in (3, 4) and t[1].isdigit():
+            frac, ns_abs = st.get(cur, (879305533, 0))
+        if t and t[0] == "advance" and len(t) in (2, 3, 4) and t[1].isdigit():
             ns = int(t[3]) if len(t) == 4 and t[3].isdigit() else 0
             f = frac + ns
             frac = f % 1000000000
-            out.append("advance %d" % (int(t[1]) + f // 1000000000))
+            ns_abs += int(t[1]) * 1000000000 + ns
+            out.append("advance %d %d" % (int(t[1]) + f // 1000000000, ns_abs))
         else:
             out.append(o)
     return out
@@ -294,7 +298,7 @@ def pred_c14(ops, impl):
                     return where + "moved coins: " + "; ".join(diff)[:300]
             elif t[0] == "advance":
                 # payouts: exactly the unbondings that are due at the new time, nothing else
-                now = h.now + int(t[1])
+                now = int(t[2]) if len(t) > 2 else h.now_ns + int(t[1]) * 1000000000
                 due = {}
                 for (d, v, amt, at) in h.pending:
                     if at <= now:
@@ -314,7 +318,7 @@ def pred_c14(ops, impl):
                         return where + "delegation %s/%s changed from %d to %d by a block update" % (k[0], k[1], x[0], ao["pairs"][k][0])
         h.apply(t, out)
         if t[0] == "advance" and out == "ok":
-            h.pending = [p for p in h.pending if p[3] > h.now]
+            h.pending = [p for p in h.pending if p[3] > h.now_ns]
     return None
 
 
@@ -378,7 +382,7 @@ def pred_c15(ops, impl):
                 tracked[k] = {"E": Fraction(0), "Elo": Fraction(0), "paid": 0, "w": 0}
         h.apply(t, out)
         if t[0] == "advance" and out == "ok":
-            h.pending = [p for p in h.pending if p[3] > h.now]
+            h.pending = [p for p in h.pending if p[3] > h.now_ns]
         if bd is not None and ad is not None:
             for k in list(tracked):
                 if k not in ad["stakes"]:
@@ -502,7 +506,7 @@ def pred_c16(ops, impl):
                             return where + "all values whole: validator total is not the sum of the scaled delegations"
         h.apply(t, out)
         if t[0] == "advance" and out == "ok":
-            h.pending = [p for p in h.pending if p[3] > h.now]
+            h.pending = [p for p in h.pending if p[3] > h.now_ns]
     return None
 
 
